@@ -174,6 +174,9 @@ def require(ctx, tier):
             raise HarnessError(f"C12 generator never produced class {lab!r}")
 
 
+# thorough tier: libFuzzer (atheris) also drives this strategy with coverage feedback from d42
+COVERAGE_GUIDED = {"runs": 60000, "seconds": 120}
+
 MANIFEST = {
     "text": "Generated-input search over schemas x hostile/partial/convertible-or-not values: the only "
             "permitted failure is SubstitutionError; every returned schema must be generatable and "
